@@ -794,7 +794,7 @@ def check_c10(prop, tier, seed):
     os.makedirs(d, exist_ok=True)
     cfg = os.path.join(d, "gen.cfg")
     maxlen = 3
-    open(cfg, "w").write('SPECIFICATION Spec\nCONSTANTS\n  Alphabet = {"A","B","C","D","E","F","G","H","I","J","K","L"}\n'
+    open(cfg, "w").write('SPECIFICATION Spec\nCONSTANTS\n  Alphabet = {"A","B","C","D","E","F","G","H","I","J","K","L","M","N"}\n'
                          f'  MaxLen = {maxlen}\n  KeyMode = "exact"\nINVARIANTS CacheCoherent\nCHECK_DEADLOCK FALSE\n')
     hist = os.path.join(d, "hist10.ndjson")
     g = vlib.run_tlc("HistoryGen.tla", cfg, dict(OUT10=hist), tag="histgen", workers=4, xmx="4g", timeout=1200)
@@ -817,9 +817,9 @@ def check_c10(prop, tier, seed):
         res.failures.append(dict(key=key, what=f"{vid}: {m0}", name=vid, replay=dict(property=prop, kind="c10", tier=tier, seed=seed, what=msgs)))
     res.coverage = dict(states=g["states"] + states, transitions=g["generated"] + trans, traces_validated_against_impl=ok,
                         evaluations=summ["calls"], histories=summ["histories"], distinct_nontrivial=summ["histories"],
-                        rule="TLC generates EVERY history of length <= 3 over an alphabet of 12 calls (stream-level mono/stereo/5-channel at block sizes "
+                        rule="TLC generates EVERY history of length <= 3 over an alphabet of 14 calls (stream-level mono/stereo/5-channel at block sizes "
                              "32/64/96/256/4096 and widths 8/12/16/20/24, rectangular / Tukey(0) / Tukey(1e-6) / Tukey(0.4) / Tukey(0.4+2^-20) windows at one "
-                             "block size, BitCount, max_parameter 0, frame-level, parse + re-serialise through both sinks) = 1884 histories, plus seeded "
+                             "block size, BitCount, max_parameter 0, frame-level, parse + re-serialise through both sinks, a header write that fails part-way, a stream write into a failing sink) = 2954 histories, plus seeded "
                              "random histories of length 8; each history runs on its own long-lived thread, each call also alone on two fresh threads; "
                              "TraceHistory.tla (stateless machine) rejects a result that differs from the fresh-thread result. distinct = histories",
                         samples=[["E", "F"], ["C", "A", "B"]], exhaustive=True)
